@@ -44,4 +44,5 @@ def run(ctx):
     R3.r04_10_key_test_table(ctx, 'R02.16')
     R3.r11_7_per_call_loader(ctx, 'R02.17')
     R3.r01_13_extras_partition(ctx, 'R02.18')
+    R3.r02_19_tag_checks_read_the_document(ctx, 'R02.19')
     S.r01_3_recursion(ctx)
